@@ -1,0 +1,242 @@
+//go:build verif
+
+// Package verifos mirrors the subset of package os used by the atomic
+// config-file replacement code (writeFileAtomic, syncDir, rollback, config
+// reads). Every call is write-through to the real os package; before it is
+// performed the installed hook sees it and may veto it with an error (fault
+// injection) or never return (simulated crash). Without a hook it is package os.
+package verifos
+
+import (
+	"io/fs"
+	"os"
+	"sync/atomic"
+)
+
+type FileMode = fs.FileMode
+type FileInfo = fs.FileInfo
+
+const (
+	O_RDONLY = os.O_RDONLY
+	O_WRONLY = os.O_WRONLY
+	O_RDWR   = os.O_RDWR
+	O_APPEND = os.O_APPEND
+	O_CREATE = os.O_CREATE
+	O_EXCL   = os.O_EXCL
+	O_TRUNC  = os.O_TRUNC
+)
+
+var (
+	ErrNotExist = os.ErrNotExist
+	ErrExist    = os.ErrExist
+)
+
+// Op describes one file-system call about to be made.
+type Op struct {
+	Kind    string // mkdirall stat createtemp open openfile readfile writefile rename remove chmod write sync close
+	Path    string
+	NewPath string // rename target
+	Data    []byte // write / writefile payload
+	Flag    int
+	Perm    FileMode
+	IsDir   bool // sync on a directory handle
+}
+
+// Hook is consulted before (Done=false) and after (Done=true) each call.
+// A non-nil error from the "before" call is returned to the caller instead of
+// performing the operation. For createtemp the "after" call carries the real
+// path in Path.
+type Hook func(op Op, done bool, resultErr error) error
+
+var hookFn atomic.Pointer[Hook]
+
+func SetHook(h Hook) {
+	if h == nil {
+		hookFn.Store(nil)
+		return
+	}
+	hookFn.Store(&h)
+}
+
+func before(op Op) error {
+	if h := hookFn.Load(); h != nil {
+		return (*h)(op, false, nil)
+	}
+	return nil
+}
+
+func after(op Op, err error) {
+	if h := hookFn.Load(); h != nil {
+		_ = (*h)(op, true, err)
+	}
+}
+
+func IsNotExist(err error) bool { return os.IsNotExist(err) }
+func IsExist(err error) bool    { return os.IsExist(err) }
+
+func MkdirAll(path string, perm FileMode) error {
+	op := Op{Kind: "mkdirall", Path: path, Perm: perm}
+	if err := before(op); err != nil {
+		return err
+	}
+	err := os.MkdirAll(path, perm)
+	after(op, err)
+	return err
+}
+
+func Stat(name string) (FileInfo, error) {
+	op := Op{Kind: "stat", Path: name}
+	if err := before(op); err != nil {
+		return nil, err
+	}
+	fi, err := os.Stat(name)
+	after(op, err)
+	return fi, err
+}
+
+func ReadFile(name string) ([]byte, error) {
+	op := Op{Kind: "readfile", Path: name}
+	if err := before(op); err != nil {
+		return nil, err
+	}
+	b, err := os.ReadFile(name)
+	after(op, err)
+	return b, err
+}
+
+func WriteFile(name string, data []byte, perm FileMode) error {
+	op := Op{Kind: "writefile", Path: name, Data: data, Perm: perm}
+	if err := before(op); err != nil {
+		return err
+	}
+	err := os.WriteFile(name, data, perm)
+	after(op, err)
+	return err
+}
+
+func Rename(oldpath, newpath string) error {
+	op := Op{Kind: "rename", Path: oldpath, NewPath: newpath}
+	if err := before(op); err != nil {
+		return err
+	}
+	err := os.Rename(oldpath, newpath)
+	after(op, err)
+	return err
+}
+
+func Remove(name string) error {
+	op := Op{Kind: "remove", Path: name}
+	if err := before(op); err != nil {
+		return err
+	}
+	err := os.Remove(name)
+	after(op, err)
+	return err
+}
+
+// File wraps *os.File so that writes, syncs and closes are visible to the hook.
+type File struct {
+	f     *os.File
+	isDir bool
+}
+
+func wrap(f *os.File) *File {
+	if f == nil {
+		return nil
+	}
+	isDir := false
+	if fi, err := f.Stat(); err == nil {
+		isDir = fi.IsDir()
+	}
+	return &File{f: f, isDir: isDir}
+}
+
+func CreateTemp(dir, pattern string) (*File, error) {
+	op := Op{Kind: "createtemp", Path: dir, NewPath: pattern}
+	if err := before(op); err != nil {
+		return nil, err
+	}
+	f, err := os.CreateTemp(dir, pattern)
+	if err == nil {
+		op.Path = f.Name()
+	}
+	after(op, err)
+	if err != nil {
+		return nil, err
+	}
+	return wrap(f), nil
+}
+
+func Open(name string) (*File, error) {
+	op := Op{Kind: "open", Path: name}
+	if err := before(op); err != nil {
+		return nil, err
+	}
+	f, err := os.Open(name)
+	after(op, err)
+	if err != nil {
+		return nil, err
+	}
+	return wrap(f), nil
+}
+
+func OpenFile(name string, flag int, perm FileMode) (*File, error) {
+	op := Op{Kind: "openfile", Path: name, Flag: flag, Perm: perm}
+	if err := before(op); err != nil {
+		return nil, err
+	}
+	f, err := os.OpenFile(name, flag, perm)
+	after(op, err)
+	if err != nil {
+		return nil, err
+	}
+	return wrap(f), nil
+}
+
+func (f *File) Name() string { return f.f.Name() }
+
+func (f *File) Stat() (FileInfo, error) { return f.f.Stat() }
+
+func (f *File) Read(p []byte) (int, error) { return f.f.Read(p) }
+
+func (f *File) Chmod(mode FileMode) error {
+	op := Op{Kind: "chmod", Path: f.f.Name(), Perm: mode}
+	if err := before(op); err != nil {
+		return err
+	}
+	err := f.f.Chmod(mode)
+	after(op, err)
+	return err
+}
+
+func (f *File) Write(p []byte) (int, error) {
+	op := Op{Kind: "write", Path: f.f.Name(), Data: p}
+	if err := before(op); err != nil {
+		return 0, err
+	}
+	n, err := f.f.Write(p)
+	after(op, err)
+	return n, err
+}
+
+func (f *File) WriteString(s string) (int, error) { return f.Write([]byte(s)) }
+
+func (f *File) Sync() error {
+	op := Op{Kind: "sync", Path: f.f.Name(), IsDir: f.isDir}
+	if err := before(op); err != nil {
+		return err
+	}
+	err := f.f.Sync()
+	after(op, err)
+	return err
+}
+
+func (f *File) Close() error {
+	op := Op{Kind: "close", Path: f.f.Name()}
+	if err := before(op); err != nil {
+		return err
+	}
+	err := f.f.Close()
+	after(op, err)
+	return err
+}
